@@ -91,6 +91,24 @@ CLAIMS = {
          "permuted / re-inserted / duplicated / near-miss variants including members that collide in CPython's hash table.",
          "Trusted: Coq kernel + vm_compute; model; harness; names are ints or ASCII strings.",
          "DESIGN.md section 4, C17"),
+ "C06": ("Coq exchange lemma + verified brute-force optimum; ParCons runs judged in Coq against them",
+         "PARTIAL proof. Machine-checked for all tables: the exchange lemma, hence every ordered partition without back arcs admits an "
+         "optimal consensus ranking earlier groups strictly before later ones; a component whose pairs can all be tied at minimal cost is "
+         "solved by the single bucket; opt (brute force over all position functions) is a lower bound of every ranking with ties and is "
+         "attained; verified checker for the partition returned by the library (is_partition_of, no_back_arcs). Judged per run in Coq, not "
+         "proved for all inputs: consensus respects the reported weak partition, flag = (no component delegated), flag => score = opt "
+         "(universes <= 6/7), model SCCs = library SCCs as sets.",
+         "Trusted: Coq kernel + vm_compute; model; harness; CBC (through PuLP), igraph and the auxiliary heuristics are outside the model and only judged per run.",
+         "DESIGN.md section 4, C06"),
+ "C07": ("Coq strict exchange + transitivity theorem; merge-loop model and consistent_with model by correspondence; optima enumerated by the verified oracle",
+         "PARTIAL proof. Machine-checked for all tables: for an ordered partition (non-empty groups, no back arcs) whose consecutive groups "
+         "are linked by robust arcs only, EVERY optimal consensus ranks earlier groups strictly before later groups; verified checker for the "
+         "partition the library returns; is_optimal <-> score = opt. By correspondence / per-run judgement: the merge loop (run in the "
+         "model on the library's own SCC order) returns the same partition, which coarsens the ParCons partition and passes the checker; all "
+         "optimal position functions enumerated in Coq respect it (<= 5/6 elements); consistent_with agrees with its model on ALL (partition, "
+         "ranking) pairs over 3/4 elements and equals the 'respects' relation on well-formed pairs.",
+         "Trusted: Coq kernel + vm_compute; model; harness; igraph's SCC order taken as given.",
+         "DESIGN.md section 4, C07"),
 }
 NOT_YET = "check not built yet in this phase (planned: DESIGN.md section 4); no claim is made"
 
